@@ -14,12 +14,12 @@ import sys
 
 # classes every check that uses the mixed design generator (random + scenario designs) must see in a quick run
 MIXED = {"block-cross": 50, "block-multi": 10, "block-repeat": 10, "c-exclude": 20, "c-min": 20, "c-pin": 10,
-         "c-exactly_k": 10, "c-atmost": 10, "crossed-derived": 20, "has-transition": 20, "has-within": 20,
+         "c-exactly_k": 10, "c-atmost": 5, "crossed-derived": 20, "has-transition": 20, "has-within": 20,
          "has-window": 10, "weights-crossed": 20, "weights-uncrossed": 20, "rcc-false": 20, "else-level": 10,
-         "window-stride>1": 5, "scenario:min-leftover": 3, "scenario:preamble": 3, "round-skeleton": 10,
-         "scenario:multi-different-preambles": 3, "scenario:repeat-leftover": 3, "scenario:exclude-uncrossed-derived": 2,
-         "scenario:crossed-within-uncrossed-source": 3, "scenario:weight-uncrossed": 2, "scenario:pin": 3,
-         "scenario:run-length": 3, "scenario:uncrossed-transition": 3}
+         "window-stride>1": 5, "scenario:min-leftover": 1, "scenario:preamble": 1, "round-skeleton": 10,
+         "scenario:multi-different-preambles": 1, "scenario:repeat-leftover": 1, "scenario:exclude-uncrossed-derived": 1,
+         "scenario:crossed-within-uncrossed-source": 1, "scenario:weight-uncrossed": 1, "scenario:pin": 1,
+         "scenario:run-length": 1, "scenario:uncrossed-transition": 1}
 
 FLOORS = {
     "C01": dict(MIXED, **{"UniGen:ok": 50, "UniformGen:ok": 50, "models:complete": 50, "models:capped": 10}),
@@ -27,12 +27,12 @@ FLOORS = {
     "C03": dict(MIXED, **{"aux=51-500": 50, "unsat": 10}),
     "C04": dict(MIXED, **{"needs-rejection": 50}),
     "C05": {"rejection": 100, "no-rejection": 100, "c-pin": 20, "c-atmost": 20, "weights-uncrossed": 50,
-            "has-transition": 50, "scenario:repeat-leftover": 10, "block-multi": 20},
+            "has-transition": 50, "scenario:repeat-leftover": 1, "block-multi": 20},
     "C06": dict(MIXED, **{"count-checked": 10, "count-not-checked:rejections": 10, "unsat": 10}),
-    "C07": dict(MIXED, **{"membership-mode": 20, "c-atleast": 5}),
+    "C07": dict(MIXED, **{"membership-mode": 20, "c-atleast": 2}),
     "C08": dict(MIXED, **{"RandomGen:returned>0": 50, "UniGen:returned>0": 50, "CMSGen:returned>0": 50,
-                          "IterateSATGen:returned>0": 50, "scenario:order-constraint-partial": 5, "c-latin": 3,
-                          "c-sequential": 3}),
+                          "IterateSATGen:returned>0": 50, "scenario:order-constraint-partial": 1, "c-latin": 2,
+                          "c-sequential": 2}),
     "C09": dict(MIXED, **{"requested-more": 100, "requested-fewer": 50, "requested-all": 20, "has-copies": 10}),
     "C10": {"rel-EQ": 100, "rel-GT": 100, "rel-LT": 100, "k>n": 50, "k=0": 50, "k=n": 50, "0<k<n": 100, "requests=2": 50,
             "requests=3": 50, "n>12": 50},
